@@ -4,9 +4,12 @@ import (
 	"fmt"
 	"os"
 	"path/filepath"
+	"runtime"
+	"sort"
 	"strings"
 	"sync"
 	"sync/atomic"
+	"time"
 
 	"github.com/AdguardTeam/urlfilter"
 	"github.com/AdguardTeam/urlfilter/filterlist"
@@ -28,6 +31,7 @@ var c12Tokens = []string{
 	"\xff", "\u212a", "||a.com^*",
 	// modifiers cut off after "=", white space other than blank and tab
 	"$client=", "$ctag=", "$denyallow=", "$dnstype=", "\u00a0", "\v",
+	"0.0.0.0 a.com", "\r", "\f",
 }
 
 func c12Requests() []*rules.Request {
@@ -48,9 +52,64 @@ func c12Requests() []*rules.Request {
 	return []*rules.Request{r1, r2, r3, r4, r5, r6, r7, r8, r9, r10, r11, r12}
 }
 
+// Termination watchdog.  "Parsing any line ... terminates": a parser that loops
+// (and allocates) for ever cannot be caught by recover, and an out-of-memory
+// crash would take the evidence with it.  Every line under check is registered;
+// a monitor reports the lines that have been in flight for too long, or the
+// ones in flight when the heap explodes, writes the evidence and ends the
+// process with the VIOLATION line.
+var (
+	c12InFlight   sync.Map // token -> *c12Flight
+	c12FlightSeq  atomic.Int64
+	c12WatchOnce  sync.Once
+	c12WatchLimit = 40 * time.Second
+)
+
+type c12Flight struct {
+	line  string
+	start time.Time
+}
+
+func c12Track(c *Ctx, line string) int64 {
+	c12WatchOnce.Do(func() {
+		go func() {
+			var ms runtime.MemStats
+			for {
+				time.Sleep(250 * time.Millisecond)
+				runtime.ReadMemStats(&ms)
+				var stuck []string
+				c12InFlight.Range(func(_, v any) bool {
+					f := v.(*c12Flight)
+					if time.Since(f.start) > c12WatchLimit || ms.HeapAlloc > 6<<30 {
+						stuck = append(stuck, f.line)
+					}
+					return true
+				})
+				if len(stuck) == 0 {
+					continue
+				}
+				sort.Strings(stuck)
+				for _, l := range stuck {
+					c.Run.Violate(ev.Violation{Pred: "parsing-terminates", Sig: map[string]any{"line": l},
+						What:   fmt.Sprintf("parsing/matching the line %q does not terminate (in flight for %s, heap %d MiB)", l, c12WatchLimit, ms.HeapAlloc>>20),
+						Replay: map[string]any{"line": l}})
+				}
+				rc := c.Run.Finish()
+				fmt.Printf("C12 %s: exit=%d (watchdog)\n", c.Tier, rc)
+				os.Exit(rc)
+			}
+		}()
+	})
+	tok := c12FlightSeq.Add(1)
+	c12InFlight.Store(tok, &c12Flight{line: line, start: time.Now()})
+	return tok
+}
+
 // c12CheckLine feeds one line to every parser, matches what comes out and
 // builds one engine of each kind from it.
 func c12CheckLine(c *Ctx, line string, reqs []*rules.Request, engines bool) (accepted bool) {
+	tok := c12Track(c, line)
+	defer c12InFlight.Delete(tok)
 	sig := map[string]any{"line": line}
 	bad := func(pred, what string) {
 		c.Run.Violate(ev.Violation{Pred: pred, Sig: sig, What: what, Replay: map[string]any{"line": line}})
